@@ -158,6 +158,10 @@ def _has_quant(e):
     return _q_cache[k]
 
 
+class NeedBranch(Exception):
+    """a speculative (trial) evaluation reached a genuine two-way split"""
+
+
 class Decider:
     """Depth-first enumeration of the decision tree, one path per run."""
 
@@ -218,6 +222,20 @@ class Decider:
         if z3.is_false(c):
             return False
         pos = len(self.trace)
+        if getattr(self, "trial", False):
+            # speculative evaluation of a pure expression: only decisions
+            # that are forced by the path condition are taken
+            nc = z3.Not(c)
+            if self.quick_unsat(st.pc, c) or not self.feasible(st.pc, c):
+                choice = False
+            elif self.quick_unsat(st.pc, nc) or \
+                    not self.feasible(st.pc, nc):
+                choice = True
+            else:
+                raise NeedBranch()
+            self.trace.append(choice)
+            st.pc.append(c if choice else nc)
+            return choice
         if pos < len(self.prefix):
             choice = self.prefix[pos]
         else:
